@@ -124,6 +124,11 @@ ZOO = {
                                  rows=False, samplewise=(True, True)),
     "CoreSet": Z("clf", lambda s, ml: CoreSet(random_state=s, missing_label=ml), none_kw),
     "TypiClust": Z("clf", lambda s, ml: TypiClust(random_state=s, missing_label=ml, cluster_algo_dict=dict(KD)), none_kw, rows=False),
+    # clustering configured WITHOUT a random_state entry (and with random initialisation): the strategy has to forward its own generator
+    "TypiClust-nors": Z("clf", lambda s, ml: TypiClust(random_state=s, missing_label=ml, cluster_algo_dict={"n_init": 1, "init": "random"}), none_kw, rows=False),
+    "ProbCover-nors": Z("clf", lambda s, ml: ProbCover(random_state=s, missing_label=ml, cluster_algo_dict={"n_init": 1, "init": "random"}), none_kw, rows=False),
+    "Clue-nors": Z("clf", lambda s, ml: Clue(random_state=s, missing_label=ml, cluster_algo_dict={"n_init": 1, "init": "random"}), clf_kw, rows=False),
+    "DropQuery-nors": Z("clf", lambda s, ml: DropQuery(random_state=s, missing_label=ml, cluster_algo_dict={"n_init": 1, "init": "random"}), clf_kw, rows=False),
     "ProbCover": Z("clf", lambda s, ml: ProbCover(random_state=s, missing_label=ml, cluster_algo_dict=dict(KD)), none_kw, rows=False),
     "Clue": Z("clf", lambda s, ml: Clue(random_state=s, missing_label=ml, cluster_algo_dict=dict(KD)), clf_kw, rows=False),
     "DropQuery": Z("clf", lambda s, ml: DropQuery(random_state=s, missing_label=ml, cluster_algo_dict=dict(KD)), clf_kw, rows=False),
